@@ -258,6 +258,8 @@ def instance_skipped_only_for_documented_reasons(ctx):
 def run(ctx):
     from .C05 import invoking_ruleset_rule
     invoking_ruleset_rule(ctx)
+    from .C06 import resume_restores_instance_context
+    resume_restores_instance_context(ctx, "C11")
     # locals / parameters the rules below refer to by name (a rename makes the analysis 'broken', never a violation)
     ctx.anchor(ctx.fn1('Oomd::Engine::Ruleset::runOnce'), 'cgroup', 'visited', 'context')
     ctx.anchor(ctx.fn1('Oomd::Engine::Ruleset::registerRunnableRulesetForCgroupPath'), 'args', 'action_group', 'detector_groups')
